@@ -18,8 +18,8 @@ func deepCopy(m gen.M) gen.M {
 func init() {
 	// C14 — the cutting-planes strategy never changes an answer
 	register(&core.Check{
-		ID:          "C14",
-		Amplify:     amplifyAPI,
+		ID:      "C14",
+		Amplify: amplifyAPI,
 		Designs: []core.Design{
 			{Name: "cuttingplanes", Module: "CuttingPlanes", Cfg: "CuttingPlanes_quick.cfg", Tier: "quick", Workers: 8, XmxMB: 6000, Timeout: 10 * time.Minute},
 			{Name: "cuttingplanes", Module: "CuttingPlanes", Cfg: "CuttingPlanes_thorough.cfg", Tier: "thorough", Workers: 16, XmxMB: 12000, Timeout: 30 * time.Minute},
